@@ -12,6 +12,7 @@ import (
 	"strings"
 	"sync/atomic"
 	"testing"
+	"unicode"
 
 	"github.com/samsarahq/thunder/batch"
 	"github.com/samsarahq/thunder/graphql"
@@ -38,21 +39,59 @@ func word(r *rand.Rand, maxLen int) string {
 	return string(b)
 }
 
+// Letters for filter texts and node texts. Besides ASCII: Latin-1, Cyrillic
+// and Greek letters (two bytes in either case), U+2C65/U+023A (lower case is
+// three bytes, upper case two), and — as upper-case variants of k and i — the
+// Kelvin sign U+212A (three bytes, lower case "k") and U+0130 (two bytes,
+// lower case "i"). Case-insensitive matching is documented for the default
+// filter (CHANGELOG #209); the model folds exactly these letters with its own
+// table (modelLower).
+var unicodeLetters = []rune{'a', 'b', 'é', 'ü', 'ж', 'λ', 'ⱥ', 'k', 'i', 'ñ', 'д'}
+
+// genAlphabet picks the four letters a case draws its words from.
+func genAlphabet(r *rand.Rand) []rune {
+	if r.Intn(2) == 0 {
+		return []rune("abcd")
+	}
+	perm := r.Perm(len(unicodeLetters))
+	out := make([]rune, 4)
+	for i := range out {
+		out[i] = unicodeLetters[perm[i]]
+	}
+	return out
+}
+
+func fword(r *rand.Rand, alpha []rune, maxLen int) string {
+	n := 1 + r.Intn(maxLen)
+	b := make([]rune, n)
+	for i := range b {
+		b[i] = alpha[r.Intn(len(alpha))]
+	}
+	return string(b)
+}
+
 func randCase(r *rand.Rand, s string) string {
 	rs := []rune(s)
 	for i := range rs {
 		if r.Intn(3) == 0 {
-			rs[i] = []rune(strings.ToUpper(string(rs[i])))[0]
+			switch {
+			case rs[i] == 'k' && r.Intn(2) == 0:
+				rs[i] = '\u212A' // Kelvin sign, lower-cases to k
+			case rs[i] == 'i' && r.Intn(2) == 0:
+				rs[i] = '\u0130' // dotted capital I, lower-cases to i
+			default:
+				rs[i] = unicode.ToUpper(rs[i])
+			}
 		}
 	}
 	return string(rs)
 }
 
-func text(r *rand.Rand) string {
+func text(r *rand.Rand, alpha []rune) string {
 	n := r.Intn(4)
 	ws := make([]string, n)
 	for i := range ws {
-		ws[i] = randCase(r, word(r, 3))
+		ws[i] = randCase(r, fword(r, alpha, 3))
 	}
 	return strings.Join(ws, " ")
 }
@@ -68,6 +107,7 @@ type caseData struct {
 	env      *caseEnv
 	batching bool
 	v        view
+	alpha    []rune // letters the case's filter texts and node texts are made of
 }
 
 var bigInt64Bases = []int64{1 << 60, math.MaxInt64 - 64, -(1 << 60), math.MinInt64 + 8, 1 << 53, 1<<62 + 1<<40}
@@ -78,13 +118,14 @@ var bigUint64Bases = []uint64{1 << 63, math.MaxUint64 - 64, 1 << 60, 1<<63 + 1<<
 // spacing at that magnitude (128..2048), so an order computed through float64
 // cannot tell them apart.
 type listShape struct {
+	alpha  []rune // letters of the filter texts
 	bBases []int64
 	wBases []uint64
 	rng    int
 }
 
 func genShape(r *rand.Rand, n int) listShape {
-	sh := listShape{rng: 1 + n*(1+r.Intn(3))/3}
+	sh := listShape{rng: 1 + n*(1+r.Intn(3))/3, alpha: genAlphabet(r)}
 	sh.bBases = []int64{bigInt64Bases[r.Intn(len(bigInt64Bases))]}
 	sh.wBases = []uint64{bigUint64Bases[r.Intn(len(bigUint64Bases))]}
 	if r.Intn(3) == 0 {
@@ -111,7 +152,7 @@ func genAttr(r *rand.Rand, sh listShape) Attr {
 		a.I = math.MinInt32 + int32(r.Intn(3))
 	}
 	for i := range a.T {
-		a.T[i] = text(r)
+		a.T[i] = text(r, sh.alpha)
 	}
 	return a
 }
@@ -124,7 +165,7 @@ func mkS(id string, a Attr) ItemS {
 	return ItemS{Id: id, N: a.N, S: a.S, F: a.F, U: a.U, B: a.B, W: a.W, I: a.I, V: a.V, G: a.G, T0: a.T[0], T1: a.T[1], T2: a.T[2]}
 }
 
-func genList(r *rand.Rand, c connSpec) ([]mItem, *caseEnv) {
+func genList(r *rand.Rand, c connSpec) ([]mItem, *caseEnv, []rune) {
 	var n int
 	switch x := r.Intn(20); {
 	case x == 0:
@@ -183,10 +224,10 @@ func genList(r *rand.Rand, c connSpec) ([]mItem, *caseEnv) {
 	}
 	env.filterBatchFlag = r.Intn(2) == 0
 	env.sortBatchFlag = r.Intn(2) == 0
-	return items, env
+	return items, env, sh.alpha
 }
 
-func genFilterText(r *rand.Rand) string {
+func genFilterText(r *rand.Rand, alpha []rune) string {
 	switch r.Intn(12) {
 	case 0:
 		return "" // documented: empty text does not filter
@@ -200,13 +241,13 @@ func genFilterText(r *rand.Rand) string {
 	for i := range toks {
 		switch r.Intn(8) {
 		case 0: // quoted phrase of two words
-			toks[i] = `"` + randCase(r, word(r, 2)+" "+word(r, 2)) + `"`
+			toks[i] = `"` + randCase(r, fword(r, alpha, 2)+" "+fword(r, alpha, 2)) + `"`
 		case 1: // quoted single word
-			toks[i] = `"` + randCase(r, word(r, 3)) + `"`
+			toks[i] = `"` + randCase(r, fword(r, alpha, 3)) + `"`
 		case 2:
 			toks[i] = `""`
 		default:
-			toks[i] = randCase(r, word(r, 1+r.Intn(3)))
+			toks[i] = randCase(r, fword(r, alpha, 1+r.Intn(3)))
 		}
 	}
 	s := strings.Join(toks, strings.Repeat(" ", 1+r.Intn(2)))
@@ -219,11 +260,11 @@ func genFilterText(r *rand.Rand) string {
 	return s
 }
 
-func genView(r *rand.Rand, c connSpec) view {
+func genView(r *rand.Rand, c connSpec, alpha []rune) view {
 	var v view
 	if r.Intn(100) < 55 {
 		v.hasFilterText = true
-		v.filterText = genFilterText(r)
+		v.filterText = genFilterText(r, alpha)
 		if r.Intn(2) == 0 {
 			v.hasFields = true
 			// non-empty subset of the registered names; sometimes an unknown
@@ -1160,7 +1201,11 @@ func (c *checker) failHistory(r *rand.Rand, reps int) {
 		// (1) the failing query; batch-with-fallback fields run their per-element fallback
 		cd.env.filterBatchFlag = false
 		cands := append(append([]filterSpec{}, perNode...), bf...)
-		fv := view{hasFilterText: true, filterText: "a b c d", hasFields: true}
+		broad := make([]string, len(cd.alpha))
+		for k, l := range cd.alpha {
+			broad[k] = string(l)
+		}
+		fv := view{hasFilterText: true, filterText: strings.Join(broad, " "), hasFields: true}
 		fv.fields = []string{cands[r.Intn(len(cands))].name}
 		if r.Intn(2) == 0 {
 			fv.fields = append(fv.fields, cands[r.Intn(len(cands))].name)
@@ -1191,9 +1236,9 @@ func (c *checker) failHistory(r *rand.Rand, reps int) {
 		case 0, 1, 2:
 			vv.filterText = `""` // empty token: nothing passes
 		case 3, 4, 5:
-			vv.filterText = `"` + randCase(r, word(r, 2)+" "+word(r, 2)) + `"`
+			vv.filterText = `"` + randCase(r, fword(r, cd.alpha, 2)+" "+fword(r, cd.alpha, 2)) + `"`
 		default:
-			vv.filterText = randCase(r, word(r, 3))
+			vv.filterText = randCase(r, fword(r, cd.alpha, 3))
 		}
 		if r.Intn(10) < 7 {
 			vv.hasFields = true
@@ -1227,8 +1272,8 @@ func runCase(run *vlib.Run, ex *executor, i int) {
 	r := run.Rand("case", i)
 	ci := r.Intn(len(conns))
 	conn := conns[ci]
-	items, env := genList(r, conn)
-	cd := &caseData{conn: conn, items: items, env: env, batching: r.Intn(2) == 0}
+	items, env, alpha := genList(r, conn)
+	cd := &caseData{conn: conn, items: items, env: env, batching: r.Intn(2) == 0, alpha: alpha}
 	cd.poolM, cd.poolI, cd.poolS = items, env.itemsI, env.itemsS
 
 	c := &checker{run: run, ex: ex, i: i, cd: cd}
@@ -1267,9 +1312,9 @@ func runCase(run *vlib.Run, ex *executor, i int) {
 	}
 
 	// One view per list, sometimes a second one.
-	views := []view{genView(r, conn)}
+	views := []view{genView(r, conn, cd.alpha)}
 	if r.Intn(4) == 0 {
-		views = append(views, genView(r, conn))
+		views = append(views, genView(r, conn, cd.alpha))
 	}
 	for _, v := range views {
 		cd.v = v
@@ -1281,6 +1326,12 @@ func runCase(run *vlib.Run, ex *executor, i int) {
 		run.Count("filtered_len:"+bucket(m), 1)
 		if c.fact {
 			run.Count("filter:active", 1)
+			if string(cd.alpha) != "abcd" {
+				run.Count("filter:non_ascii_letters_in_alphabet", 1)
+				if len(v.applyFold(conn, cd.items, asciiLower)) != m {
+					run.Count("filter:result_depends_on_folding_a_non_ascii_letter", 1)
+				}
+			}
 			if m < len(items) {
 				run.Count("filter:removes_elements", 1)
 			}
@@ -1361,7 +1412,7 @@ func TestCheck(t *testing.T) {
 	defer run.Finish()
 	run.Rule("case = one list (0-40 elements, unique int or string keys, sort values with duplicates, three mixed-case filter texts per element) served by one of four thunder-managed paginated fields " +
 		"(value/pointer nodes x int/string key; filter fields plain/Expensive/batch/batch-with-fallback, 36 sort fields = int64/string/float64/uint16/int32/uint32/float32 + int64 and uint64 with clusters of values above 2^53 (1<<60+d, MaxInt64-d, MinInt64+d, 1<<63+d, MaxUint64-d; d far below the float64 spacing) x plain/Expensive/batch/batch-with-fallback, fallback flags random; the model compares every sort value exactly in its own type) " +
-		"x 1-2 views (filterText of space-separated words / quoted phrases / empty tokens, optional filterTextFields subset incl. an unknown name, sortBy/sortOrder asc/desc/default). " +
+		"x 1-2 views (filterText of space-separated words / quoted phrases / empty tokens, words and node texts in mixed case over a per-case 4-letter alphabet that in half of the cases contains non-ASCII letters (Latin-1, Cyrillic, Greek, letters whose two cases differ in encoded length: U+023A/U+2C65, Kelvin sign, U+0130), optional filterTextFields subset incl. an unknown name, sortBy/sortOrder asc/desc/default). " +
 		"Per view: the whole list, a forward walk (first/after from endCursor while hasNextPage), a backward walk (last/before from startCursor while hasPrevPage), 10 absolute-position queries " +
 		"(first or last in {0,1,<len,=len,>len}; after/before valid first/middle/last, unknown = garbage / empty / base64 of a missing key / cursor of a filtered-out element; both cursors ordered, adjacent, same, inverted), " +
 		"and 2 prepared-query sequences: Parse + PrepareQuery ONCE, then 4-6 executions of the same *graphql.Query object while the mutable store behind the resolver grows (append / prepend / insert) and shrinks between executions " +
